@@ -48,7 +48,13 @@ theorem lexIdent_ok {n : Int} {l : Lexer} (hg : Good n l) :
   · nx d l2 hl2 hs2 hf2
     exact lexIdentRest_sat (by lx) (by lx) (by lx) (by lx) (by lx) (by lx)
   split
-  · exact lexIdentRest_sat (by lx) (by lx) (by lx) (by lx) (by lx) (by lx)
+  · apply Sat.bind
+    apply peek_sat (by lx)
+    intro p l2 hl2 hs2 hp2 hf2
+    dsimp only
+    split
+    · first | exact errorf_sat | exact errorfAt_sat
+    · exact lexIdentRest_sat (by lx) (by lx) (by lx) (by lx) (by lx) (by lx)
   split
   · exact lexIdentRest_sat (by lx) (by lx) (by lx) (by lx) (by lx) (by lx)
   split
